@@ -50,7 +50,7 @@ func strs(l *list.List) []string {
 
 var zodiacFest = ev.Register(&ev.P[dayCase]{
 	Name: "zodiac_and_festivals",
-	Rule: "every civil day of the sweep years (every year 1..9998 in thorough) and generated days; oracle: the sign is the one whose conventional first day (3-21, 4-20, 5-21, 6-22, 7-23, 8-23, 9-23, 10-24, 11-23, 12-22, 1-20, 2-19) is the latest on or before the month-day — so exactly one sign per day, twelve contiguous runs in order, independent of the year; deprecated alias equal; festivals re-derived from the exported maps' keys: 'm-d' fixed dates, 'm-k-w' reported <=> the day is the k-th occurrence of weekday w among the existing days of month m, 'm-0-w' <=> no later day of the month has weekday w; the reported list equals the derived list exactly (nothing else, nothing twice); other-festival list equals the map entry; non-trivial: first/last day of a sign, Feb 29, a day that is the 7k-th or (7k-6)-th of its month, the last 7 days of a month, or 1582-10",
+	Rule: "every civil day of the sweep years (every year 1..9998 in thorough) and generated days; oracle: the sign is the one whose conventional first day (3-21, 4-20, 5-21, 6-22, 7-23, 8-23, 9-23, 10-24, 11-23, 12-22, 1-20, 2-19) is the latest on or before the month-day — so exactly one sign per day, twelve contiguous runs in order, independent of the year; deprecated alias equal; festivals re-derived from the exported maps' keys: 'm-d' fixed dates, 'm-k-w' reported <=> the day is the k-th occurrence of weekday w among the existing days of month m, 'm-0-w' <=> no later day of the month has weekday w; the reported list equals the derived list exactly (nothing else, nothing twice), also on the object reached by NextYear(1) from the previous year's week row; other-festival list equals the map entry; non-trivial: first/last day of a sign, Feb 29, a day that is the 7k-th or (7k-6)-th of its month, the last 7 days of a month, or 1582-10",
 	Check: func(c dayCase) error {
 		y, m, d := ref.FromJDN(c.J)
 		// sign and festivals are facts of the civil day: the clock time rotates with the day number
@@ -104,6 +104,20 @@ var zodiacFest = ev.Register(&ev.P[dayCase]{
 		gotF := strs(s.GetFestivals())
 		if strings.Join(gotF, "|") != strings.Join(wantF, "|") {
 			return fmt.Errorf("%s (weekday %d, occurrence %d, last=%v): festivals %v, rules give %v", day, wd, occ, last, gotF, wantF)
+		}
+		// the same civil day reached from a week row of the previous year (and from last month's row) by NextYear /
+		// NextMonth: the festivals are those of the day reached, not of the day it was stepped from
+		if y >= 3 && (y-1 != 1582 || m != 10) && ref.ValidDate(y-1, m, d) {
+			for e := calendar.NewSolarWeekFromYmd(y-1, m, d, c.J%7).GetDays().Front(); e != nil; e = e.Next() {
+				if x := e.Value.(*calendar.Solar); x.GetMonth() == m && x.GetDay() == d {
+					_ = x.GetWeek()
+					if r := x.NextYear(1); r.GetYear() == y && r.GetMonth() == m && r.GetDay() == d {
+						if got := strs(r.GetFestivals()); strings.Join(got, "|") != strings.Join(wantF, "|") || r.GetWeek() != wd || r.GetXingZuo() != want {
+							return fmt.Errorf("%s reached by NextYear(1) from the week row of %d: festivals %v weekday %d sign %s, rules give %v / %d / %s", day, y-1, got, r.GetWeek(), r.GetXingZuo(), wantF, wd, want)
+						}
+					}
+				}
+			}
 		}
 		gotO := strs(s.GetOtherFestivals())
 		if strings.Join(gotO, "|") != strings.Join(SolarUtil.OTHER_FESTIVAL[fmt.Sprintf("%d-%d", m, d)], "|") {
